@@ -50,10 +50,25 @@ def r_val(v):
     if k == "name":
         return v[1]
     if k == "fn":
-        return "(fn [%s]%s%s %s)" % (" ".join(v[1]), r_decls(v[2]), r_block(v[3]), r_val(v[4]))
+        return "(fn [%s]%s%s %s)" % (r_params(v[1]), r_decls(v[2]), r_block(v[3]), r_val(v[4]))
     if k == "callv":
         return "(%s%s)" % (v[1], "".join(" " + r_val(a) for a in v[2]))
     raise ValueError(k)
+
+
+def r_params(ps):
+    """Parameter list text. The same positional parameters are written in one of three equivalent ways (plain, all
+    positional-only, first positional-only), chosen by a fixed function of the names, so that every kind of positional
+    parameter meets the let / declaration machinery; calls are positional with exact arity in all three."""
+    ps = list(ps)
+    if not ps:
+        return ""
+    style = (sum(ord(c) for n in ps for c in n) + len(ps)) % 3
+    if style == 1:
+        return " ".join(ps + ["/"])
+    if style == 2:
+        return " ".join(ps[:1] + ["/"] + ps[1:])
+    return " ".join(ps)
 
 
 def r_decls(ds):
@@ -65,7 +80,7 @@ def r_block(b):
 
 
 def r_defn(s):
-    return "(defn %s [%s]%s%s %s)" % (s[1], " ".join(s[2]), r_decls(s[3]), r_block(s[4]), r_val(s[5]))
+    return "(defn %s [%s]%s%s %s)" % (s[1], r_params(s[2]), r_decls(s[3]), r_block(s[4]), r_val(s[5]))
 
 
 def r_stmt(s):
